@@ -144,7 +144,7 @@ def run_case(args):
     key = json.dumps(case, sort_keys=True)
     rng = np.random.default_rng(zlib.crc32(key.encode()) + seed)
     ev = {"e": "Case", "M": M, "N": N, "axes": axes, "op": op, "S": case["S"], "P": 5,
-          "d": -1, "dLin": -1, "dNodes": -1, "dCommute": 16, "dOutside": 0, "kOut": 0, "degP": [], "degQ": [],
+          "d": -1, "dLin": -1, "dNodes": -1, "dCommute": 16, "dHist": 16, "dOutside": 0, "kOut": 0, "degP": [], "degQ": [],
           "outAxes": [], "outShape": [], "inShape": []}
     try:
         grid = WG.Grid(M, N, 1.0, 1.0)
@@ -221,6 +221,15 @@ def run_case(args):
             ev["dCommute"] = quant.reldigits(Q.coefficients, D1.coefficients, floor=FL)
             ev["outAxes"] = descr_of(D1)
             ev["outShape"] = list(D1.coefficients.shape)
+            # history on ONE object: differentiate, change its basis in place, differentiate again (and back, and again)
+            # (only the differentiated axes change basis: the others keep theirs in the result, which exact() assumes)
+            flip = tuple(("Chebyshev" if a["basis"] == "Cardinal" else "Cardinal") if (a["basis"] != "Array" and i in S) else a["basis"] for i, a in enumerate(axes))
+            P1.changeBasis(flip)
+            Dh = P1.derivative(tuple(S) if len(S) > 1 else S[0])
+            ev["dHist"] = quant.reldigits(Dh.coefficients, exact(T1), floor=FL)
+            P1.changeBasis(tuple(a["basis"] for a in axes))
+            Dh2 = P1.derivative(tuple(S) if len(S) > 1 else S[0])
+            ev["dHist"] = min(ev["dHist"], quant.reldigits(Dh2.coefficients, exact(T1), floor=FL))
         elif op == "integrate":
             qs, degQ, degP = {}, [], []
             for i in S:
